@@ -75,6 +75,16 @@ Init == /\ gr \in (IF Nesting THEN [Stages -> Graphs] ELSE {[s \in Stages |-> 0]
         /\ done = [s \in Stages |-> 0] /\ rfail = [s \in Stages |-> FALSE] /\ ran = [s \in Stages |-> {}]
         /\ upst = [c \in Ctxs |-> "no"] /\ dn = [c \in Ctxs |-> "no"]
 
+\* the configuration of the negative control Taskctl_nest3_errlate.cfg (and of the scenario the harness
+\* forces on the real scheduler): a failing stage in a pipeline that two stages without dependencies include
+InitErrLate == /\ Init /\ gr = [s \in Stages |-> IF s = 1 THEN 1 ELSE 0] /\ inc = [s \in Stages |-> s # 1]
+               /\ cls = [s \in Stages |-> IF s = 1 THEN "FAIL" ELSE "OK"] /\ deps = [s \in Stages |-> {}]
+
+\* the configuration of the negative control Taskctl_nest3_pinned.cfg: a pipeline of one stage that two
+\* stages without dependencies include
+InitDouble == /\ Init /\ gr = [s \in Stages |-> IF s = 1 THEN 1 ELSE 0] /\ inc = [s \in Stages |-> s # 1]
+              /\ cls = [s \in Stages |-> "OK"] /\ deps = [s \in Stages |-> {}]
+
 \* --- scheduler layer (one iteration of the loop body for stage s; cf. Scheduler.tla VisitOutcome) ---
 \* an outer stage is visited by the outer loop, a stage of the included pipeline by the loop of a
 \* nested Schedule call that is in progress (one per including stage that is running)
